@@ -277,3 +277,113 @@ def run(ctx):
     ctx.floor('override_probe_runs', 14)
     ctx.floor('raw_sql_sites_in_renderer', 6)
     ctx.floor('ast_printer_classes', 20)
+    check_text_rewrites(ctx, tree, cls)
+
+
+def check_text_rewrites(ctx, tree, cls):
+    """Once literals are inlined the SQL text is final: any rewriting of it (replace, re.sub, helper functions) must leave every literal as it is.
+    Each rewriting step found on the render path is applied - by the checker's interpreter, on the step's own AST - to probe texts."""
+    import re as _re
+    from ..interp import Interp, Obj, Raised, Env, Closure
+    from ..source import dotted as _dotted
+    funcs = [n for n in tree.body if isinstance(n, ast.FunctionDef) and n.name.startswith('render_')]
+    funcs += [m for m in cls.body if isinstance(m, ast.FunctionDef) and m.name in ('get_string', 'get_exec_params')]
+    ctx.need(len(funcs) >= 4, 'render_dml_query / render_ddl_query / get_string / get_exec_params not found')
+    # helper functions callable by name: this module's and `from mindsdb_sql.<mod> import name`
+    helpers = {n.name: n for n in tree.body if isinstance(n, ast.FunctionDef)}
+    for n in tree.body:
+        if isinstance(n, ast.ImportFrom) and n.module and n.module.startswith('mindsdb_sql'):
+            f = n.module.replace('.', '/') + '.py'
+            try:
+                t2 = ctx.src.tree(f)
+            except Exception:
+                try:
+                    t2 = ctx.src.tree(n.module.replace('.', '/') + '/__init__.py')
+                except Exception:
+                    continue
+            for a in n.names:
+                for d in t2.body:
+                    if isinstance(d, ast.FunctionDef) and d.name == a.name:
+                        helpers[a.asname or a.name] = d
+    PROBES = [("SELECT 'a`b' AS `x` FROM `t`", ["'a`b'"]), ("SELECT 'line1\nline2\ttab  two   blanks' FROM t", ["'line1\nline2\ttab  two   blanks'"]),
+              ("INSERT INTO t VALUES ('it''s; -- no', '%s :x')", ["'it''s; -- no'", "'%s :x'"]), ("SELECT 'UPPER lower' FROM t \n WHERE a = ' lead and trail '", ["'UPPER lower'", "' lead and trail '"])]
+    def _own_nodes(f):
+        # nodes of the function itself: not those of classes / functions defined inside it
+        stack = list(f.body)
+        while stack:
+            n = stack.pop()
+            yield n
+            for c in ast.iter_child_nodes(n):
+                if not isinstance(c, (ast.FunctionDef, ast.ClassDef, ast.Lambda)):
+                    stack.append(c)
+    nsteps = 0
+    for fn in funcs:
+        sqlvars = set()
+        for st in _own_nodes(fn):
+            if isinstance(st, ast.Assign) and isinstance(st.targets[0], ast.Name):
+                v = st.value
+                src = (isinstance(v, ast.Call) and (_dotted(v.func) in ('str', 'render_func', 'render_dml_query', 'render_ddl_query')
+                                                    or (isinstance(v.func, ast.Attribute) and v.func.attr in ('to_string', 'get_string'))))
+                if src:
+                    sqlvars.add(st.targets[0].id)
+        changed = True
+        steps = []
+        while changed:
+            changed = False
+            for st in _own_nodes(fn):
+                val = None
+                if isinstance(st, ast.Assign) and isinstance(st.targets[0], ast.Name):
+                    val, tgt = st.value, st.targets[0].id
+                elif isinstance(st, ast.Return) and st.value is not None:
+                    val, tgt = st.value, None
+                    if isinstance(val, ast.Tuple) and val.elts:
+                        val = val.elts[0]
+                if val is None or isinstance(val, ast.Name):
+                    continue
+                used = {x.id for x in ast.walk(val) if isinstance(x, ast.Name) and x.id in sqlvars}
+                direct_src = isinstance(val, ast.Call) and _dotted(val.func) == 'str' and not used
+                if used and not direct_src:
+                    if (id(st), tuple(sorted(used))) not in [(id(s0), tuple(sorted(u0))) for s0, u0, _ in steps]:
+                        steps.append((st, used, val))
+                    if tgt and tgt not in sqlvars:
+                        sqlvars.add(tgt)
+                        changed = True
+        # a rewriting step directly on the compiled text: return f(str(Compiler(...)))
+        for st in _own_nodes(fn):
+            if isinstance(st, ast.Return) and isinstance(st.value, ast.Call) and _dotted(st.value.func) != 'str':
+                inner = [x for x in ast.walk(st.value) if isinstance(x, ast.Call) and _dotted(x.func) == 'str' and x is not st.value]
+                if inner and not any(s0 is st for s0, _, _ in steps):
+                    steps.append((st, {'<compiled>'}, st.value))
+        for st, used, val in steps:
+            nsteps += 1
+            bad = None
+            for text, lits in PROBES:
+                stubs = {'re.sub': lambda it, pat, repl, s_, *a, **k: _re.sub(pat, (lambda m: repl(m)) if callable(repl) else repl, s_)}
+                for hn, hf in helpers.items():
+                    stubs[hn] = (lambda f_: (lambda it, *a, **k: it.call_function(f_, list(a), dict(k), Env())))(hf)
+                # the compiled text itself stands in for str(<compiler>(...))
+                stubs['str'] = lambda it, x=None, *a: text if isinstance(x, Obj) else str(x)
+                it = Interp(stubs=stubs)
+                env = Env()
+                for v in used:
+                    env.set(v, text)
+                env.set('self', Obj('SqlalchemyRender', dialect=Obj('Dialect', name='postgresql')))
+                env.set('dialect', Obj('Dialect', name='postgresql'))
+                try:
+                    out = it.ev(val, env)
+                except Raised as r:
+                    raise AnalysisError(f'{fn.name}: rewriting step `{norm(val)[:80]}` raises {r.exc_name} on a probe text')
+                if isinstance(out, tuple):
+                    out = out[0]
+                if not isinstance(out, str):
+                    raise AnalysisError(f'{fn.name}: rewriting step `{norm(val)[:80]}` does not yield text on a probe')
+                miss = [l for l in lits if l not in out]
+                if miss:
+                    bad = (text, out, miss)
+                    break
+            ctx.ob('C07.text-rewrite', f'{fn.name}:{norm(val)[:60]}', bad is None,
+                   (f'{fn.name}: the finished SQL text is rewritten by `{norm(val)[:90]}`; on `{bad[0]}` the literal {bad[2][0]} does not survive '
+                    f'(result `{bad[1]}`): a rewrite of the text after constants were inlined changes the constants it touches') if bad else '',
+                   file=RENDER, line=st.lineno, witness="Constant('line1\nline2')")
+    ctx.setcount('text_rewrite_steps', nsteps)
+
